@@ -8,63 +8,67 @@ Import ListNotations.
 
 Definition c04_O (S : SOps) (sq eg : nat -> lmx S -> lmx S) : MatOps := ListMat S sq eg.
 
-Definition c04_mix (S : SOps) (sq eg : nat -> lmx S -> lmx S) (n : nat)
+Definition c04_mix (S : SOps) (sq eg : nat -> lmx S -> lmx S) (n circ : nat)
            (comps : list (lmx S * lmx S)) (ws : list (T S)) : mixture (c04_O S sq eg) n n :=
-  @mkMix (c04_O S sq eg) n n (mkLayout n 0 false 0) comps ws.
+  @mkMix (c04_O S sq eg) n n (mkLayout (n - circ) circ false 0) comps ws.
 
-(* UKFPrediction::predict.  generic = false: additive constructor, A = F (n x n), Q (n x n),
+(* UKFPrediction::predict, one call.  The state has n rows: n - circ linear ones followed by circ
+   Euler-circular ones (circ = 0: the layout of the theorems of Properties_C04.v).
+   generic = false: additive constructor, A = F (n x n), Q (n x n),
    exo = Some c: a constant exogenous input attached to the linear state model (propagate is
    x -> F x + c); generic = true: A = [F B] (n x (n+q)) applied to the augmented sigma points,
-   Q = Qw (q x q) *)
-Definition c04_predict (S : SOps) (sq eg : nat -> lmx S -> lmx S) (n q : nat) (generic : bool)
+   Q = Qw (q x q).  The function has no other argument: an UKFPrediction object keeps the unscented
+   weights (alpha, beta, kappa and the degrees of freedom n resp. n + q, fixed at construction) and
+   nothing else between calls, so a sequence of calls on one object is this function applied to
+   the operands of each call (what the live model holds at that call). *)
+Definition c04_predict (S : SOps) (sq eg : nat -> lmx S -> lmx S) (n circ q : nat) (generic : bool)
            (alpha beta kappa : T S) (skip_pred skip_state : bool) (A Q : lmx S) (exo : option (lmx S))
            (comps : list (lmx S * lmx S)) (ws : list (T S))
   : list (lmx S * lmx S) * list (T S) :=
   let O := c04_O S sq eg in
-  let Lst := mkLayout n 0 false 0 in
+  let Lst := mkLayout (n - circ) circ false 0 in
   let r :=
     if generic then
-      @ukf_predict_generic O n q (mkLayout n 0 false q) Lst alpha beta kappa skip_pred skip_state
-                           (@linear_cols O (n + q) n A) Q (c04_mix S sq eg n comps ws)
+      @ukf_predict_generic O n q (mkLayout (n - circ) circ false q) Lst alpha beta kappa skip_pred skip_state
+                           (@linear_cols O (n + q) n A) Q (c04_mix S sq eg n circ comps ws)
     else
       @ukf_predict_additive O n Lst alpha beta kappa skip_pred skip_state
                             (match exo with
                              | Some c => @affine_cols O n n A c
                              | None => @linear_cols O n n A
-                             end) Q n (c04_mix S sq eg n comps ws) in
+                             end) Q n (c04_mix S sq eg n circ comps ws) in
   (mx_comps r, mx_weights r).
 
-(* UKFCorrection::correct + getLikelihood.  generic = false: additive constructor, A = H (m x n),
-   R (m x m); generic = true: A = [H D] (m x (n+q)), R = Rv (q x q).  y = None: no measurement.
-   warm = Some y0: the same object has first performed a successful correction of the same
-   predicted belief with measurement y0 (so that innovations and innovation covariances of
-   an earlier step are present when the step under test starts). *)
-Definition c04_correct (S : SOps) (sq eg : nat -> lmx S -> lmx S) (n q m : nat) (generic : bool)
-           (alpha beta kappa : T S) (skip : bool) (A R : lmx S) (y : option (lmx S)) (fail : bool)
-           (warm : option (lmx S)) (mnoise : nat)
+(* UKFCorrection::correct + getLikelihood, one call of an object whose kept state (innovations_,
+   covariances of predicted_meas_) is [st]; returns the output object, what getLikelihood reports
+   afterwards, and the state kept for the next call.  generic = false: additive constructor,
+   A = H (m x n), R (m x m); generic = true: A = [H D] (m x (n+q)), R = Rv (q x q).
+   y = None: no measurement; fail: the predicted measurement cannot be evaluated; fail_innov: the
+   innovation cannot be evaluated.  The state has
+   n - circ linear rows followed by circ Euler-circular ones; the measurement is linear. *)
+Definition c04_correct (S : SOps) (sq eg : nat -> lmx S -> lmx S) (n circ q m : nat) (generic : bool)
+           (alpha beta kappa : T S) (skip : bool) (A R : lmx S) (y : option (lmx S)) (fail fail_innov : bool)
+           (mnoise : nat)
            (comps : list (lmx S * lmx S)) (ws : list (T S))
            (old_comps : list (lmx S * lmx S)) (old_ws : list (T S))
-  : (list (lmx S * lmx S) * list (T S)) * option (list (T S)) :=
+           (st : list (lmx S) * list (lmx S))
+  : ((list (lmx S * lmx S) * list (T S)) * option (list (T S))) * (list (lmx S) * list (lmx S)) :=
   let O := c04_O S sq eg in
   let Lm := mkLayout m 0 false mnoise in     (* getMeasurementDescription(): m linear, mnoise noise components *)
-  let pred := c04_mix S sq eg n comps ws in
-  let old := c04_mix S sq eg n old_comps old_ws in
-  let step (sk : bool) (yy : option (lmx S)) (fl : bool) (st : ukf_state O m) :=
+  let pred := c04_mix S sq eg n circ comps ws in
+  let old := c04_mix S sq eg n circ old_comps old_ws in
+  let st0 : ukf_state O m := @mkUkfState O m (fst st) (snd st) in
+  let innov := fun P yy => if fail_innov then None else @lin_innovation_cols O m P yy in
+  let '(mixr, st1, _) :=
     if generic then
-      @ukf_correct_generic O n q m (mkLayout n 0 false q) Lm alpha beta kappa sk yy
-        (fun X => if fl then None else Some (@linear_cols O (n + q) m A X))
-        (@lin_innovation_cols O m) R pred old st
+      @ukf_correct_generic O n q m (mkLayout (n - circ) circ false q) Lm alpha beta kappa skip y
+        (fun X => if fail then None else Some (@linear_cols O (n + q) m A X))
+        innov R pred old st0
     else
-      @ukf_correct_additive O n m (mkLayout n 0 false m) Lm alpha beta kappa sk yy
-        (fun X => if fl then None else Some (@linear_cols O n m A X))
-        (@lin_innovation_cols O m) R pred old st in
-  let st_empty : ukf_state O m := @mkUkfState O m [] [] in
-  let st0 := match warm with
-             | None => st_empty
-             | Some y0 => snd (fst (step false (Some y0) false st_empty))
-             end in
-  let '(mixr, st, _) := step skip y fail st0 in
-  ((mx_comps mixr, mx_weights mixr), @ukf_likelihood O m st).
+      @ukf_correct_additive O n m (mkLayout (n - circ) circ false m) Lm alpha beta kappa skip y
+        (fun X => if fail then None else Some (@linear_cols O n m A X))
+        innov R pred old st0 in
+  (((mx_comps mixr, mx_weights mixr), @ukf_likelihood O m st1), (@us_innov O m st1, @us_Pyy O m st1)).
 
 (* the Kalman steps on the same inputs (spec side); for the noise-input models the
    equivalent additive covariances B Qw B^T / D Rv D^T *)
